@@ -488,6 +488,12 @@ class C16(Check):
                 err = next(iter(v.iter_errors(plain)), None)
                 if err is not None:
                     discs.append(Disc(f"C16/meta-schema/{spec['kind']}", f"{err.message[:300]} at {list(err.absolute_path)[:8]} | {where}"))
+                # (2b) the document declares the version it was asked for (the first thing either meta-schema constrains: `openapi`
+                # must match ^3\.0\.\d / ^3\.1\.\d; stated as its own clause so that it is not lost among other complaints)
+                if not is_rpc:
+                    wanted = spec['kind'].split('-', 1)[1]
+                    if plain.get('openapi') != wanted:
+                        discs.append(Disc("C16/declared-version", f"OpenAPI(openapi={wanted!r}) produced a document declaring openapi={plain.get('openapi')!r} | {where}"))
                 # (3) refs
                 for r in refs_of(plain):
                     ok, _ = resolve(plain, r)
